@@ -31,7 +31,12 @@ BlindVecs ==
      LET w == EncIdentity(IF k % 2 = 0 THEN "key" ELSE "keyx", p[1], p[2], k) IN
      [op |-> "Blind", fn |-> "CreateBlindedDestination", in |-> w, st |-> p[1], idkey |-> [off |-> BlockLen - SigPubLen(p[1]), len |-> SigPubLen(p[1])],
       secret |-> sec, instants |-> InstSets[k], stream |-> k + Len(sec)])
-Vecs == EncVecs \o BlindVecs
+\* the same with the PROCESS's local time zone set away from UTC (the blinded key must depend on the UTC day only)
+BlindLocalVecs ==
+  Cross3(<< << 7, 4 >>, << 11, 4 >> >>, << -28800, 19800, 50400 >>, Range(1, Len(Midnights)), LAMBDA p, lo, k :
+     [op |-> "Blind", fn |-> "CreateBlindedDestination", in |-> EncIdentity("key", p[1], p[2], k), st |-> p[1], idkey |-> [off |-> BlockLen - SigPubLen(p[1]), len |-> SigPubLen(p[1])],
+      secret |-> Secrets[1], instants |-> InstSets[k], stream |-> k + 77, localoffset |-> lo])
+Vecs == EncVecs \o BlindVecs \o BlindLocalVecs
 VARIABLE done
 Init == done = FALSE
 Next == ~done /\ ndJsonSerialize(OutFile, Vecs) /\ PrintT(<< "GENERATED", Len(Vecs) >>) /\ done' = TRUE
